@@ -478,6 +478,214 @@ def r6_need_calibration_sound(ctx):
   ctx.sample(R, {'stores': n})
 
 
+def _plan_oracle(ctx, R, gen, label, pg, mat):
+  plan = pg.fields['model_quant_results']
+  model = pg.fields['flatbuffer_model']
+  if not isinstance(plan, dict):
+    ctx.check(R, False, gen.node, gen, label, 'the plan is not a dict')
+    return
+  problems = []
+  seen_names = set()
+  for sg in model.fields['subgraphs']:
+    prefix = sg.fields['name'].decode()
+    real = [o for o in sg.fields['operators'] if 'label' in o.fields]
+    for k, t in enumerate(sg.fields['tensors']):
+      name = t.fields['name'].decode()
+      readers = [(oi, o) for oi, o in enumerate(real) for x in o.fields['inputs'] if x == k]
+      want_cons = len(readers) + sg.fields['outputs'].count(k)
+      writers = [(oi, o) for oi, o in enumerate(real) if k in o.fields['outputs']]
+      want_prod = 1 if writers or k in sg.fields['inputs'] else 0
+      e = plan.get(name)
+      if want_cons + want_prod == 0:
+        continue
+      seen_names.add(name)
+      if not isinstance(e, Obj):
+        problems.append(f'{name}: no entry in the plan')
+        continue
+      cons = e.fields['consumers'] or []
+      if len(cons) != want_cons:
+        problems.append(f'{name}: {len(cons)} consumer entries, {want_cons} operand occurrences read it')
+      if (e.fields['producer'] is not None) != bool(want_prod):
+        problems.append(f'{name}: producer entry {"present" if e.fields["producer"] is not None else "missing"}, expected {"one" if want_prod else "none"}')
+      # every entry comes from the operator that owns the occurrence: selected operators carry the stand-in's token, all others NO_QUANTIZE
+      got = sorted((c.fields['subgraph_op_id'], c.fields['parameters'] if isinstance(c.fields['parameters'], str) else c.fields['transformations'][0].name) for c in cons)
+      want = sorted([(oi, 'M:' + o.fields['label'] if o.fields['label'] in mat else 'NO_QUANTIZE') for oi, o in readers] +
+                    [(-1, ('M:IO:' + prefix[:2] + 'OUTPUT') if ('IO:' + prefix[:2] + 'OUTPUT') in mat else 'NO_QUANTIZE')] * sg.fields['outputs'].count(k))
+      if len(cons) == want_cons and got != want:
+        problems.append(f'{name}: consumer entries {got}, expected {want}')
+      if e.fields['producer'] is not None and want_prod:
+        p = e.fields['producer'].fields
+        gp = (p['subgraph_op_id'], p['parameters'] if isinstance(p['parameters'], str) else p['transformations'][0].name)
+        if writers:
+          oi, o = writers[0]
+          wp = (oi, 'M:' + o.fields['label'] if o.fields['label'] in mat else 'NO_QUANTIZE')
+        else:
+          wp = (-1, ('M:IO:' + prefix[:2] + 'INPUT') if ('IO:' + prefix[:2] + 'INPUT') in mat else 'NO_QUANTIZE')
+        if gp != wp:
+          problems.append(f'{name}: producer entry {gp}, expected {wp}')
+  extra = sorted(set(plan) - seen_names)
+  if extra:
+    problems.append(f'entries for tensors no operator touches: {extra}')
+  ctx.check(R, not problems, gen.node, gen, label, '; '.join(problems[:3]))
+
+
+def r7_selection_simulation(ctx, R='C10.R7', what='selection'):
+  """The three selection loops are run (path interpreter) on the same label
+  model with the same rule list; the registered init / calibrate / materialise
+  functions are stand-ins that only record which operator they were handed.
+  Oracle: the operators calibrated on every sample == the operators
+  materialised (incl. the virtual INPUT / OUTPUT operators of the signature's
+  subgraph), the operators initialised == the real operators materialised,
+  each exactly once per pass, each with the scope of its own output names."""
+  import itertools  # pylint: disable=g-import-not-at-top
+  from sa import absint, consteval  # pylint: disable=g-import-not-at-top
+  from sa.consteval import Ext  # pylint: disable=g-import-not-at-top
+  from sa.rules import c11  # pylint: disable=g-import-not-at-top
+  titles = {'selection': 'selection simulation: init / calibrate / quantize hand the SAME operators to the algorithm, once each, for every subgraph and rule list of the lattice',
+            'plan': 'plan simulation: every tensor gets one producer entry and one consumer entry per operand occurrence, from the operator that owns it; unselected and unknown operators contribute NO_QUANTIZE entries'}
+  rs = ctx.rule(R, titles[what], floor=1)
+  cal = ctx.repo.func(f'{CAL}.calibrate')
+  gen = ctx.repo.func(f'{PG}.generate_quantization_parameters')
+  ctx.instance(R)
+  BO = consteval.schema_enum('BuiltinOperator')
+  code = lambda n: Ext(f'BuiltinOperator.{n}', BO[n])
+  OP, ALG, drq, srq, bad = c11._domain(ctx)  # pylint: disable=protected-access
+  MM, NOQ = ALG['MIN_MAX_UNIFORM_QUANT'], ALG['NO_QUANTIZE']
+  FC, CONV, ALL, SM = OP['FULLY_CONNECTED'], OP['CONV_2D'], OP['ALL_SUPPORTED'], OP['SOFTMAX']
+  IN, OUT = OP['INPUT'], OP['OUTPUT']
+  TTP, OTP = 'qtyping:TensorTransformationParams', 'qtyping:OpToTensorParams'
+  NOQT = tables.enum_member(ctx, 'qtyping:QuantTransformation', 'NO_QUANTIZE')
+  ADDQ = tables.enum_member(ctx, 'qtyping:QuantTransformation', 'ADD_QUANTIZE')
+
+  def model():
+    def sg(prefix, ops, nt, gin, gout):
+      return Obj('x:SubGraphT', {'tensors': [Obj('x:TensorT', {'name': f'{prefix}t{k}'.encode(), 'buffer': 0, 'type': 0, 'shape': [1]}) for k in range(nt)],
+                                 'operators': [Obj('x:OperatorT', {'label': f'{prefix}{lab}', 'opcodeIndex': ci, 'inputs': list(i), 'outputs': list(o)}) for lab, ci, i, o in ops],
+                                 'inputs': list(gin), 'outputs': list(gout), 'name': prefix.encode()})
+    # codes: 0 FC, 1 CONV_2D, 2 SOFTMAX, 3 unknown (CUSTOM)
+    s0 = sg('x/', [('fc', 0, [0, 1], [2]), ('cust', 3, [2], [3]), ('conv', 1, [3, 4], [5]), ('sm', 2, [5], [6])], 7, [0], [6])
+    s1 = sg('y/', [('fc', 0, [0, 1], [2]), ('fc2', 0, [2, 1], [3])], 4, [0], [3, 2])
+    return Obj('x:ModelT', {'subgraphs': [s0, s1], 'buffers': [Obj('x:BufferT', {'data': None})],
+                            'operatorCodes': [Obj('x:OperatorCodeT', {'builtinCode': code(n)}) for n in ('FULLY_CONNECTED', 'CONV_2D', 'SOFTMAX', 'CUSTOM')]})
+
+  mk = {
+      'fcS@x': lambda: c11._recipe('x/', FC, MM, srq),     # pylint: disable=protected-access
+      'allS': lambda: c11._recipe('.*', ALL, MM, srq),     # pylint: disable=protected-access
+      'allD': lambda: c11._recipe('.*', ALL, MM, drq),     # pylint: disable=protected-access
+      'fcD@t3': lambda: c11._recipe('t3;', FC, MM, drq),   # pylint: disable=protected-access  (one operator of subgraph y only)
+      'outS': lambda: c11._recipe('.*', OUT, MM, srq),     # pylint: disable=protected-access
+      'inS@y': lambda: c11._recipe('y/', IN, MM, srq),     # pylint: disable=protected-access
+      'fcNo@y': lambda: c11._recipe('y/', FC, NOQ, tables.construct(ctx, common.OPCFG)),  # pylint: disable=protected-access
+  }
+  rule_lists = [[a] for a in mk] + [[a, b] for a, b in itertools.permutations(mk, 2) if {a, b} & {'allS', 'allD'} or {a, b} == {'fcS@x', 'fcNo@y'}]
+  rs.exhaustive = True
+  n = 0
+  for names in rule_lists:
+    store = {}
+    for nm in names:
+      r = mk[nm]()
+      store.setdefault(r.fields['regex'], []).append(r)
+    for sig_sg in ((0, 1) if what == 'selection' else (0,)):
+      seen = {'init': [], 'calibrate': [], 'materialize': []}
+
+      def label_of(op, graph_info):
+        if isinstance(op, Obj) and op.cls.endswith('IOOperator'):
+          first = graph_info.fields['subgraph_tensors'][0].fields['name'].decode()
+          return 'IO:' + first[:2] + op.fields['op_key'].name
+        return op.fields.get('label') if isinstance(op, Obj) else repr(op)
+
+      def init_fn(args, kwargs):
+        seen['init'].append(label_of(args[0].fields['op'], args[1]))
+        return {'stat:' + label_of(args[0].fields['op'], args[1]): {'min': 0, 'max': 0}}
+
+      def cal_fn(args, kwargs):
+        seen['calibrate'].append(label_of(args[0], args[1]))
+        return {}
+
+      def mat_fn(args, kwargs):
+        opi = args[0].fields
+        seen['materialize'].append(label_of(opi['op'], args[1]))
+        op = opi['op']
+        tens = args[1].fields['subgraph_tensors']
+        out = []
+        for t in op.fields['inputs']:
+          if t != -1:
+            out.append(Obj(TTP, {'tensor_name': tens[t].fields['name'].decode(), 'producer': None, 'consumers': [Obj(OTP, {'subgraph_op_id': opi['subgraph_op_index'], 'transformations': [ADDQ], 'parameters': 'M:' + seen['materialize'][-1]})]}))
+        for t in op.fields['outputs']:
+          if t != -1:
+            out.append(Obj(TTP, {'tensor_name': tens[t].fields['name'].decode(), 'producer': Obj(OTP, {'subgraph_op_id': opi['subgraph_op_index'], 'transformations': [ADDQ], 'parameters': 'M:' + seen['materialize'][-1]}), 'consumers': None}))
+        return out
+      hooks = {
+          c11.CHECK_FQ: (lambda a, k: c11._mk_interp(ctx).hooks[c11.CHECK_FQ](a, k)),  # pylint: disable=protected-access
+          'algorithm_manager.get_init_qsv_func': lambda a, k: shared._StandIn(lambda aa, kk, kind=None: init_fn(aa, kk), 'init'),   # pylint: disable=protected-access
+          'algorithm_manager.get_quantization_func': lambda a, k: shared._StandIn(  # pylint: disable=protected-access
+              (lambda aa, kk, kind=None: cal_fn(aa, kk)) if getattr(a[2], 'name', '') == 'CALIBRATE' else (lambda aa, kk, kind=None: mat_fn(aa, kk)), 'q'),
+          'tfl_interpreter_utils.invoke_interpreter_signature': lambda a, k: {},
+          'tfl_interpreter_utils.get_signature_main_subgraph_index': lambda a, k: sig_sg,
+          'tfl_interpreter_utils.get_tensor_name_to_content_map': lambda a, k: {},
+          f'{PG}._check_buffer_sharing': lambda a, k: None,
+          f'{PG}._check_tensor_names_are_unique': lambda a, k: None,
+      }
+      it = absint.Interp(ctx.repo, ctx.ev, hooks=hooks)
+      rm = Obj('recipe_manager:RecipeManager', {'_scope_configs': store})
+      label = f'rules {names}, signature on subgraph {sig_sg}'
+      calo = Obj(CAL, {'_flatbuffer_model': model(), '_tfl_interpreter': Obj('x:Interpreter', {'reset_all_variables': shared._StandIn(lambda a, k, kind=None: None, 'r')}),  # pylint: disable=protected-access
+                       '_tensor_content_map': {}, '_model_qsvs': {}, '_cached_output': []})
+      o1 = it.outcomes(cal, [calo, [{'d': 1}, {'d': 2}], rm, 'sig'], copy_args=False)
+      first_pass = list(seen['calibrate'])
+      resumed_ok = True
+      if calo.fields['_model_qsvs'] and (ctx.tier == 'thorough' or len(names) == 1 or 'allS' in names):
+        # a resumed session (statistics already present) must walk the same operators
+        del seen['calibrate'][:]
+        o1b = it.outcomes(cal, [calo, [{'d': 3}, {'d': 4}], rm, 'sig'], copy_args=False)
+        resumed = list(seen['calibrate'])
+        resumed_ok = len(o1b) == 1 and o1b[0].kind == 'return' and sorted(set(resumed)) == sorted(set(first_pass)) and \
+            sorted(x for x in resumed if not x.startswith('IO:')) == sorted(x for x in first_pass if not x.startswith('IO:'))
+        ctx.check(R, resumed_ok, cal.node, cal, f'{label}: resumed session calibrates {sorted(set(resumed))}, fresh one {sorted(set(first_pass))}',
+                  'a calibration resumed on existing statistics does not visit the same operators as a fresh one')
+        # ... also when the statistics were loaded into a NEW calibrator object (load_model_qsvs) instead of being computed by it
+        del seen['calibrate'][:]
+        calo2 = Obj(CAL, {'_flatbuffer_model': model(), '_tfl_interpreter': calo.fields['_tfl_interpreter'], '_tensor_content_map': {},
+                          '_model_qsvs': dict(calo.fields['_model_qsvs']), '_cached_output': []})
+        o1c = it.outcomes(cal, [calo2, [{'d': 5}, {'d': 6}], rm, 'sig'], copy_args=False)
+        loaded = list(seen['calibrate'])
+        ok3 = len(o1c) == 1 and o1c[0].kind == 'return' and sorted(set(loaded)) == sorted(set(first_pass)) and \
+            sorted(x for x in loaded if not x.startswith('IO:')) == sorted(x for x in first_pass if not x.startswith('IO:'))
+        ctx.check(R, ok3, cal.node, cal, f'{label}: calibrator with loaded statistics calibrates {sorted(set(loaded))}, fresh one {sorted(set(first_pass))}',
+                  'a calibrator that starts from loaded statistics does not visit the same operators as a fresh one (e.g. the virtual INPUT/OUTPUT operators are attached only while initialising)')
+        seen['calibrate'][:] = first_pass
+      pg = Obj(PG, {'flatbuffer_model': model(), 'model_quant_results': {}, 'buffer_to_tensors': {}})
+      need = it.outcomes(ctx.repo.func('recipe_manager:RecipeManager.need_calibration'), [rm], copy_args=False)
+      o2 = it.outcomes(gen, [pg, rm, {}], copy_args=False)
+      if len(o1) != 1 or o1[0].kind != 'return' or len(o2) != 1 or o2[0].kind != 'return':
+        ctx.check(R, False, gen.node, gen, label, f'not decided: calibrate {[o.short()[:80] for o in o1]} / quantize {[o.short()[:80] for o in o2]}')
+        continue
+      n += 1
+      mat = seen['materialize']
+      if what == 'plan':
+        _plan_oracle(ctx, R, gen, label, pg, mat)
+        continue
+      prefix = 'x/' if sig_sg == 0 else 'y/'
+      # quantization visits every subgraph; calibration of one signature visits its main subgraph, on each of the 2 samples
+      mat_here = sorted(x for x in mat if x.startswith(prefix))
+      io_all = sorted(x for x in mat if x.startswith('IO:'))
+      calib = seen['calibrate']
+      real_cal = sorted(x for x in calib if not x.startswith('IO:'))
+      ctx.check(R, real_cal == sorted(mat_here * 2), cal.node, cal, f'{label}: calibrated {sorted(set(real_cal))} x{2}, quantized {mat_here}',
+                f'operators calibrated on the two samples {real_cal} are not exactly the operators quantized in that subgraph {mat_here} (twice): '
+                'statistics are missing for a quantized operator, or an operator is calibrated that quantization ignores')
+      ctx.check(R, sorted(seen['init']) == sorted(x for x in mat if not x.startswith('IO:')), cal.node, cal, f'{label}: initialised {sorted(seen["init"])}',
+                f'operators whose statistics are initialised differ from the operators quantized {sorted(x for x in mat if not x.startswith("IO:"))}')
+      # virtual INPUT / OUTPUT operators of the signature's subgraph: the kinds calibrated == the kinds quantized there
+      # (calibrate re-attaches them on every sample, so one sample may meet them more than once; folding twice is prevented elsewhere, C09.R3)
+      io_q = sorted({x for x in mat if x.startswith('IO:' + prefix)})
+      io_c = sorted({x for x in calib if x.startswith('IO:')})
+      ctx.check(R, io_c == io_q, cal.node, cal, f'{label}: virtual ops calibrated {io_c}, quantized {io_q}',
+                'the virtual INPUT/OUTPUT operators calibrated for this signature differ from those quantized in its subgraph: a rule on INPUT/OUTPUT is honoured by one phase only')
+      ctx.check(R, all(mat.count(x) == 1 for x in set(mat)), gen.node, gen, f'{label}: materialised {mat}', 'an operator is materialised more than once in one quantization pass')
+  ctx.sample(R, {'rule_lists': len(rule_lists), 'decided': n})
+
+
 def run(ctx):
   r1_one_scope_function(ctx)
   r2_one_protocol(ctx)
@@ -485,3 +693,4 @@ def run(ctx):
   r4_needs_statistics(ctx)
   r5_absent_not_empty(ctx)
   r6_need_calibration_sound(ctx)
+  r7_selection_simulation(ctx)
